@@ -921,7 +921,7 @@ let handle (x : sexp) : (string * string) list =
                else if not (json_eqb mj r.u_gw) || (errs <> []) <> (r.u_gwerr > 0) then begin
                  let model_is_mono = json_ueq mj r.u_mono && (errs <> []) = (r.u_monoerr > 0) in
                  let gw_is_mono = json_ueq r.u_gw r.u_mono && (r.u_gwerr > 0) = (r.u_monoerr > 0) in
-                 if contract && model_is_mono && not gw_is_mono then
+                 if model_is_mono && not gw_is_mono then
                    (* the plan is valid (theorem) and executed by the model it yields the monolith's answer, every request of the
                       engine is one of the model's -- yet the engine's RESPONSE differs: the defect is after fetching (response
                       tree / rendering), the gateway != monolith divergence itself is reported by the C01 data check *)
